@@ -341,7 +341,8 @@ def GChan.pollColl (g : GChan) (e : Env) (w : WOp RSt RSt) (ans : Nat) : Step (G
       let (e2, tevs) := taskDropEvs w1 e1
       (Step.emit tevs).bind fun _ =>
         match res with
-        | .complete _ => .ok ({ g with act := .scoll (.awaiting (collRead g st.rd st.buf st.spare)), running := true }, e2) []
+        | .complete _ =>
+          .ok ({ g with act := .scoll (.awaiting (collRead { g with incoming := [] } st.rd st.buf st.spare)), running := true }, e2) []
         | .dropped =>
           .ok ({ g with act := .idle, running := false }, e2)
             ([.ch .sdr [st.rd.handle], evP g.c .ready, .ch .cores (g.c :: st.buf)] ++ valDrops g.c g.kind st.buf)
